@@ -20,7 +20,7 @@ import (
 )
 
 func TestVerifBoundedC40KeystoreModel(t *testing.T) {
-	names := []string{"a", "A", "..", "a/b", "../x", "k\x00ü", strings.Repeat("n", 70)}
+	names := []string{"a", "A", "..", "a/b", "../x", "k\x00ü", strings.Repeat("n", 70), "Self", "Peer", "élan"}
 	var keys []ci.PrivKey
 	for range 2 {
 		k, _, err := ci.GenerateEd25519Key(rand.Reader)
